@@ -255,10 +255,39 @@ func (e *Engine) analyseWriteSets() {
 // callbacks is excluded by assumption, see DESIGN §9).
 func (e *Engine) buildCallGraph() {
 	e.callees = map[*ssa.Function]map[*ssa.Function]bool{}
+	e.dynKeys = map[*ssa.Function]map[string]bool{}
 	for _, fn := range e.funcsByKey {
 		out := map[*ssa.Function]bool{}
+		dyn := map[string]bool{}
+		e.dynKeys[fn] = dyn
 		for _, b := range fn.Blocks {
 			for _, in := range b.Instrs {
+				if _, isGo := in.(*ssa.Go); isGo {
+					// a spawned goroutine is not part of this call's sequential effect (its body is a
+					// verification unit of its own; what it does concurrently is a schedule matter)
+					continue
+				}
+				// interface method calls and calls through named local function variables: the
+				// contract keys under which an assumed contract (and its ghost events) may be attached
+				if ci, ok := in.(ssa.CallInstruction); ok {
+					c := ci.Common()
+					if c.StaticCallee() == nil {
+						if _, isB := c.Value.(*ssa.Builtin); !isB {
+							if e.sigSpecific(c.Signature()) {
+								for _, t := range e.dynTargets(c) {
+									out[t] = true
+								}
+							}
+						}
+					}
+					if c.IsInvoke() {
+						dyn[e.invokeKey(c)] = true
+					} else if u, ok := c.Value.(*ssa.UnOp); ok && u.Op == token.MUL {
+						if a, ok := u.X.(*ssa.Alloc); ok && a.Comment != "" {
+							dyn["localfn "+a.Comment] = true
+						}
+					}
+				}
 				for _, op := range in.Operands(nil) {
 					if f, ok := (*op).(*ssa.Function); ok {
 						out[f] = true
@@ -295,9 +324,241 @@ func (e *Engine) reachKeys(fn *ssa.Function) map[string]bool {
 	r := map[string]bool{}
 	for f := range seen {
 		r[e.fnKey(f)] = true
+		for k := range e.dynKeys[f] {
+			r[k] = true
+		}
 	}
 	e.reachCache[fn] = r
 	return r
+}
+
+// escapingFns: the package functions whose value escapes (is used other than as the callee
+// of a call): closures handed to other code, method values, functions stored in fields. A
+// dynamic call can only reach one of these (or, for interface calls, a method of the package).
+func (e *Engine) escapingFns() []*ssa.Function {
+	if e.escaping != nil {
+		return e.escaping
+	}
+	e.escaping = []*ssa.Function{}
+	seen := map[*ssa.Function]bool{}
+	add := func(f *ssa.Function) {
+		if f == nil {
+			return
+		}
+		if f.Synthetic != "" && f.Object() != nil {
+			// bound-method / thunk wrappers stand for the method itself
+			if m, ok := f.Object().(*types.Func); ok {
+				if real := e.Prog.FuncValue(m); real != nil {
+					f = real
+				}
+			}
+		}
+		if !seen[f] {
+			seen[f] = true
+			e.escaping = append(e.escaping, f)
+		}
+	}
+	// calledOnly: every use of v is as the callee of a call (possibly through a local variable)
+	var calledOnly func(v ssa.Value, depth int) bool
+	calledOnly = func(v ssa.Value, depth int) bool {
+		refs := v.Referrers()
+		if refs == nil {
+			return false
+		}
+		for _, r := range *refs {
+			switch r := r.(type) {
+			case *ssa.DebugRef:
+			case ssa.CallInstruction:
+				c := r.Common()
+				if c.Value != v {
+					return false
+				}
+				for _, a := range c.Args {
+					if a == v {
+						return false
+					}
+				}
+			case *ssa.Store:
+				a, ok := r.Addr.(*ssa.Alloc)
+				if !ok || r.Val != v || depth > 2 {
+					return false
+				}
+				for _, ar := range *a.Referrers() {
+					switch ar := ar.(type) {
+					case *ssa.DebugRef, *ssa.Store:
+					case *ssa.UnOp:
+						if !calledOnly(ar, depth+1) {
+							return false
+						}
+					default:
+						return false
+					}
+				}
+			default:
+				return false
+			}
+		}
+		return true
+	}
+	for _, fn := range e.funcsByKey {
+		for _, b := range fn.Blocks {
+			for _, in := range b.Instrs {
+				if mc, ok := in.(*ssa.MakeClosure); ok {
+					if !calledOnly(mc, 0) {
+						add(mc.Fn.(*ssa.Function))
+					}
+					continue
+				}
+				var callee ssa.Value
+				if ci, ok := in.(ssa.CallInstruction); ok {
+					callee = ci.Common().Value
+				}
+				for _, op := range in.Operands(nil) {
+					if f, ok := (*op).(*ssa.Function); ok && (*op) != callee {
+						add(f)
+					} else if ok && callee == f {
+						// also passed as an argument of its own call?
+						n := 0
+						for _, op2 := range in.Operands(nil) {
+							if *op2 == ssa.Value(f) {
+								n++
+							}
+						}
+						if n > 1 {
+							add(f)
+						}
+					}
+				}
+			}
+		}
+	}
+	return e.escaping
+}
+
+func sameParamsResults(a, b *types.Signature) bool {
+	if a.Params().Len() != b.Params().Len() || a.Results().Len() != b.Results().Len() || a.Variadic() != b.Variadic() {
+		return false
+	}
+	for i := 0; i < a.Params().Len(); i++ {
+		if !types.Identical(a.Params().At(i).Type(), b.Params().At(i).Type()) {
+			return false
+		}
+	}
+	for i := 0; i < a.Results().Len(); i++ {
+		if !types.Identical(a.Results().At(i).Type(), b.Results().At(i).Type()) {
+			return false
+		}
+	}
+	return true
+}
+
+// dynTargets: the functions of this package a dynamic call may reach — for an interface
+// method call the package's methods of that name and signature, for a call through a
+// function value the escaping functions of that signature. (Code of other packages that is
+// reached instead can write this package's unexported fields only by calling back into it,
+// which is excluded by the stated no-reentrancy assumption.)
+func (e *Engine) dynTargets(c *ssa.CallCommon) []*ssa.Function {
+	var out []*ssa.Function
+	sig := c.Signature()
+	if c.IsInvoke() {
+		for _, fn := range e.funcsByKey {
+			if fn.Signature.Recv() != nil && fn.Name() == c.Method.Name() && sameParamsResults(fn.Signature, sig) {
+				out = append(out, fn)
+			}
+		}
+		return out
+	}
+	for _, fn := range e.escapingFns() {
+		fs := fn.Signature
+		if sameParamsResults(fs, sig) {
+			out = append(out, fn)
+		}
+	}
+	return out
+}
+
+// sigSpecific: the signature mentions a named type of this package (in a parameter or
+// result, through pointers/slices). Values of such function types are produced and consumed
+// inside the package, so their flow is resolved by signature; for generic signatures
+// (func(), func() error, Close() error, ...) only the candidate targets themselves are taken
+// into account, not what they call in turn: package code reached through such a value is
+// either a user callback (no re-entrancy, stated assumption) or work handed to another
+// goroutine.
+func (e *Engine) sigSpecific(sig *types.Signature) bool {
+	var mentions func(t types.Type, d int) bool
+	mentions = func(t types.Type, d int) bool {
+		if d > 4 {
+			return false
+		}
+		switch u := t.(type) {
+		case *types.Named:
+			return u.Obj().Pkg() == e.TPkg
+		case *types.Pointer:
+			return mentions(u.Elem(), d+1)
+		case *types.Slice:
+			return mentions(u.Elem(), d+1)
+		case *types.Array:
+			return mentions(u.Elem(), d+1)
+		case *types.Map:
+			return mentions(u.Key(), d+1) || mentions(u.Elem(), d+1)
+		}
+		return false
+	}
+	for i := 0; i < sig.Params().Len(); i++ {
+		if mentions(sig.Params().At(i).Type(), 0) {
+			return true
+		}
+	}
+	for i := 0; i < sig.Results().Len(); i++ {
+		if mentions(sig.Results().At(i).Type(), 0) {
+			return true
+		}
+	}
+	return false
+}
+
+// dynReach: the contract keys a dynamic call may reach (see sigSpecific).
+func (e *Engine) dynReach(c *ssa.CallCommon) map[string]bool {
+	if e.callees == nil {
+		e.buildCallGraph()
+	}
+	reach := map[string]bool{}
+	specific := e.sigSpecific(c.Signature())
+	for _, t := range e.dynTargets(c) {
+		if specific {
+			for k := range e.reachKeys(t) {
+				reach[k] = true
+			}
+		} else {
+			reach[e.fnKey(t)] = true
+		}
+	}
+	return reach
+}
+
+// preservedByDyn: the declared fields a dynamic call cannot write.
+func (e *Engine) preservedByDyn(c *ssa.CallCommon) []*FieldDecl {
+	if c == nil {
+		return e.preservedBy(nil)
+	}
+	if e.callees == nil {
+		e.buildCallGraph()
+	}
+	reach := e.dynReach(c)
+	var out []*FieldDecl
+	for _, fd := range e.preservedBy(nil) {
+		hit := false
+		for w := range fd.Writers {
+			if reach[w] {
+				hit = true
+				break
+			}
+		}
+		if !hit {
+			out = append(out, fd)
+		}
+	}
+	return out
 }
 
 // preservedBy: the declared fields that a call to fn (nil = dynamic callee) cannot write.
@@ -525,7 +786,7 @@ func (x *Exec) instFrame(fr frameRec, a notedAddr) {
 func (x *Exec) assumePreserved(s *State, pre map[Sort]Term, callee *ssa.Function, dynamic bool) {
 	var fds []*FieldDecl
 	if dynamic {
-		fds = x.E.preservedBy(nil)
+		fds = x.E.preservedByDyn(x.curCall)
 		if len(fds) > 0 {
 			x.C.Trusted["dynamic calls (callbacks, interface methods of other packages) do not re-enter the package to write fields under a write-set declaration"] = true
 		}
@@ -578,6 +839,18 @@ func (x *Exec) havocGhosts(s *State, callee *ssa.Function) {
 	}
 	if callee == nil {
 		x.C.Trusted["dynamic calls do not re-enter the package to emit ghost-counted events"] = true
+		if x.curCall != nil {
+			reach := x.E.dynReach(x.curCall)
+			for g, fns := range em {
+				for f := range fns {
+					if reach[f] {
+						x.baseCounter++
+						s.Ghost[g] = x.C.Fresh("G_"+g, SBV64)
+						break
+					}
+				}
+			}
+		}
 		return
 	}
 	if callee.Pkg != x.E.Pkg && !(callee.Pkg == nil && callee.Origin() != nil && callee.Origin().Pkg == x.E.Pkg) {
